@@ -13,12 +13,20 @@ def no_char(v, chars):
     return bstr.all_bytes(v.e, lambda c: z3.And([c != b8(ord(ch)) for ch in chars]))
 
 
+def max_occurrences(v, ch, k):
+    """at most k bytes of v equal ch"""
+    cnt = bv(0)
+    for i in range(v.e.cap):
+        cnt = cnt + z3.If(z3.And(ult(bv(i), v.e.n), v.e.b[i] == b8(ord(ch))), bv(1), bv(0))
+    return ule(cnt, bv(k))
+
+
 def lit(s):
     return VStr(bstr.lit(s))
 
 
 def caps(tier):
-    return dict(m=10, a=10) if tier == "quick" else dict(m=24, a=20)
+    return dict(m=10, a=10, g=8, v=6, intmax=999) if tier == "quick" else dict(m=24, a=20, g=36, v=12, intmax=99999)
 
 
 def make_queries(tier):
@@ -72,8 +80,10 @@ def make_queries(tier):
         E.cover("labels of length >= 4", z3.And(ugt(m.e.n, bv(3)), ugt(a.e.n, bv(3))))
 
     def q_parsers_total(E):
-        """URI parsers never panic on arbitrary printable input"""
+        """URI parsers never panic on arbitrary printable input (at most 6 of each separator)"""
         u = E.str("u", C["m"] + 8, "printable")
+        for ch in "/=:_.":
+            E.assume(max_occurrences(u, ch, 5))
         ml = E.call("manifest_label_from_uri", u)
         E.call("assertion_label_from_uri", u)
         E.call("box_name_from_uri", u)
@@ -83,11 +93,59 @@ def make_queries(tier):
         E.cover("an input with a manifest label", is_some(ml))
         E.cover("an input without", z3.Not(is_some(ml)))
 
-    qs = [q_assertion_uri_roundtrip, q_manifest_and_signature_uri, q_databox_and_credential_uri, q_relative_absolute, q_parsers_total]
+    def parts_inputs(E, v1):
+        guid = E.str("guid", C["g"], "graph", min_len=1)
+        E.assume(bstr.all_bytes(guid.e, lambda c: z3.Or(z3.And(uge(c, b8(0x30)), ule(c, b8(0x39))), z3.And(uge(c, b8(0x61)), ule(c, b8(0x66))), c == b8(0x2d))))
+        vendor = E.str("vendor", C["v"], "graph", min_len=1)
+        # a vendor as Claim::new produces it: lower-cased, and it must not contain the label/URI separators
+        E.assume(no_char(vendor, ":/="))
+        E.assume(bstr.all_bytes(vendor.e, lambda c: z3.Not(z3.And(uge(c, b8(0x41)), ule(c, b8(0x5a))))))
+        cgi = E.opt("has_vendor", vendor)
+        if v1:
+            version, reason = none(), none()
+        else:
+            ver = E.int("version", C["intmax"])
+            rea = E.int("reason", C["intmax"])
+            version = E.opt("has_version", ver)
+            hr = E.bool("has_reason")
+            # a reason is only ever attached to a version
+            reason = opt(z3.And(hr.e, is_some(version)), rea)
+        return guid, cgi, version, reason
+
+    def q_manifest_parts_roundtrip_v2(E):
+        """ManifestParts (v2: urn:c2pa:guid[:vendor][:version[_reason]]) -> Display -> manifest_label_to_parts"""
+        guid, cgi, version, reason = parts_inputs(E, False)
+        mp = VStruct("ManifestParts", {"guid": guid, "is_v1": VBool(False), "cgi": cgi, "version": version, "reason": reason})
+        label = E.call("display:ManifestParts", mp)
+        back = E.call("manifest_label_to_parts", label)
+        E.prove("v2 label parses back to the same parts", veq(back, some(mp)))
+        via_uri = E.call("manifest_label_to_parts", E.call("to_manifest_uri", label))
+        E.prove("v2 label inside a manifest URI parses back to the same parts", veq(via_uri, some(mp)))
+        E.cover("vendor, version and reason all present", z3.And(is_some(cgi), is_some(version), is_some(reason)))
+        E.cover("version without vendor", z3.And(z3.Not(is_some(cgi)), is_some(version)))
+
+    def q_manifest_parts_roundtrip_v1(E):
+        """ManifestParts (v1: [vendor:]urn:uuid:guid) -> Display -> manifest_label_to_parts"""
+        guid, cgi, version, reason = parts_inputs(E, True)
+        mp = VStruct("ManifestParts", {"guid": guid, "is_v1": VBool(True), "cgi": cgi, "version": version, "reason": reason})
+        label = E.call("display:ManifestParts", mp)
+        back = E.call("manifest_label_to_parts", label)
+        E.prove("v1 label parses back to the same parts", veq(back, some(mp)))
+        E.cover("v1 label with vendor", is_some(cgi))
+        E.cover("v1 label without vendor", z3.Not(is_some(cgi)))
+
+    qs = [q_manifest_parts_roundtrip_v2, q_manifest_parts_roundtrip_v1, q_assertion_uri_roundtrip, q_manifest_and_signature_uri, q_databox_and_credential_uri, q_relative_absolute, q_parsers_total]
     return qs
 
 
-NATIVE_MAP = {}
+def _mp_args(a):
+    mp = a[0]
+    def o(x):
+        return x["payload"][0] if x["variant"] == "Some" else None
+    return [mp["guid"], mp["is_v1"], o(mp["cgi"]), o(mp["version"]), o(mp["reason"])]
+
+
+NATIVE_MAP = {"display:ManifestParts": ("manifest_parts_to_string", _mp_args)}
 
 VECTORS = [
     ("to_manifest_uri", ["urn:c2pa:1234"]),
